@@ -276,3 +276,25 @@ def register(mut):
             this->resume();
             this->resume();
         }''', ['C18'])
+    mut('reusable-capacity-ge', 'coro_storage.h',
+        '''        if (sz > _capacity) {
+            ::operator delete (_ptr);''',
+        '''        if (sz >= _capacity) {
+            ::operator delete (_ptr);''', ['C19'])
+    mut('mtsafe-busy-not-taken', 'coro_storage.h',
+        '''        if (_busy.exchange(true, std::memory_order_relaxed)) {''',
+        '''        if (_busy.load(std::memory_order_relaxed) && _busy.exchange(true, std::memory_order_relaxed)) {''', ['C19'])
+    mut('mtsafe-never-released', 'coro_storage.h',
+        '''            me->_busy.store(false, std::memory_order_relaxed);''',
+        '''            (void)me;''', ['C19'])
+    mut('stack-flag-inverted', 'alloca_storage.h',
+        '''        if (*flag) ::operator delete(ptr);''',
+        '''        if (!*flag) ::operator delete(ptr);''', ['C19'])
+    mut('extra-destroyed-at-wrong-offset', 'coro_storage.h',
+        '''        T *x = reinterpret_cast<T *>(static_cast<std::uint8_t *>(ptr)+sz);
+        x->~T();''',
+        '''        T *x = reinterpret_cast<T *>(static_cast<std::uint8_t *>(ptr)+sz);
+        if (sz > 1000) x->~T();''', ['C19'])
+    mut('reusable-buffer-short', 'coro_storage.h',
+        '''        std::size_t items = (sz+itemsz-1)/itemsz;''',
+        '''        std::size_t items = (sz+itemsz-1)/itemsz - (sz > 1000 ? 16 : 0);''', ['C19'])
